@@ -329,6 +329,9 @@ psRes_t psPkcs8ParsePrivBin(psPool_t *pool,
         if ((*p++ != ASN_OCTET_STRING) ||
             getAsnLength(&p, (int32) (end - p), &len) < 0 ||
             (uint32) (end - p) < len ||
+            /* 3DES-CBC below decrypts whole blocks (in place): with any other
+               length it would run over the end of the buffer */
+            (len % DES3_BLOCKLEN) != 0 ||
 #   ifdef USE_ECC
             /* May actually be an RSA key, but this check will be OK for now */
             len < MIN_ECC_BITS / 8)
